@@ -10,7 +10,7 @@ from .. import core
 
 RULE = ("readable_count: every integer within ±W of j·2^(10k) for the critical multipliers "
         "j∈{1, 9.95, 10, 99.95, 100, 999.5, 1000}, k=0..6, powers of two ±1 up to 2^70, plus random "
-        "integers (log-uniform); stats: random infos (1-3 scales, non-cubic chunk sizes, sharded or "
+        "integers (log-uniform), and floating-point counts (float and numpy.float64: whole, halves, quarters, log-uniform, below and above 1000) judged by the property's predicate on their exact value; stats: random infos (1-3 scales, non-cubic chunk sizes, sharded or "
         "not) through show_scales_info, and random small volumes through volume_to_precomputed with a "
         "recording writer. Distinct = distinct canonical input; trivial = count < 1000 / "
         "single-chunk volume.")
@@ -45,7 +45,7 @@ def oracle_readable(n, s):
         return f"fewer than two significant digits: {s!r}"
     # within rounding distance: half a unit in the last shown place (+ float64 rounding of n)
     err = abs(shown * factor - n)
-    tol = ulp * factor / 2 + Fraction(n, 2**53)
+    tol = ulp * factor / 2 + Fraction(n) / 2**53
     if err > tol:
         return f"shown value {s!r} is not within rounding distance of {n}"
     return None
@@ -119,12 +119,26 @@ def run(ctx):
                 ctx.corr_mismatch("readable-width", {"count": n}, len(s), int(mwidth))
             ctx.hist("readable_output_kind", "plain" if s.endswith(" ") else
                      ("tenths" if "." in s else ("fallback" if "," in s else "whole")))
-    # floats: the docstring's example path (float input) — oracle only
-    for x in (1e10, 512.0, 1023.9, 1e3, 1e15, 2.0**60):
-        s = utils.readable_count(x)
-        bad = oracle_readable(int(x), s) if x == int(x) else None
-        if bad:
-            ctx.oracle_fail("readable_count(float): " + bad, {"count": x, "output": s})
+    # floats: the docstring's own example passes a float (readable_count(1e10)), and callers print means and
+    # ratios; the property's predicate is applied to the exact value of the float (no model: oracle only)
+    fl = [1e10, 512.0, 1023.9, 1e3, 1e15, 2.0**60, 0.0, 0.4, 0.5, 1.5, 9.5, 9.96, 38.888888888888886, 99.5,
+          123.45, 999.4, 999.5, 999.6, 1023.5, 1024.5, 10188.8, 700 / 18]
+    for _ in range(ctx.budget(400, 20000)):
+        fl.append(2.0 ** rng.uniform(-2, 69.9))
+        fl.append(rng.uniform(0, 1200))
+        fl.append(rng.randrange(0, 4000) / 4)
+    for x in fl:
+        for form in (float, np.float64):
+            try:
+                s = utils.readable_count(form(x))
+            except Exception as exc:  # noqa
+                ctx.oracle_fail(f"readable_count({form.__name__}) raised {type(exc).__name__}", {"count": x})
+                continue
+            bad = oracle_readable(Fraction(x), s)
+            ctx.case(("readable-float", x, form.__name__), nontrivial=x != int(x))
+            if bad:
+                ctx.oracle_fail(f"readable_count({form.__name__}): " + bad, {"count": x, "output": s})
+    ctx.hist("readable_float_inputs", len(fl))
     # ---- (b) show_scales_info numbers vs model ----------------------------------------------------
     reqs, expect = [], []
     for _ in range(ctx.budget(150, 4000)):
